@@ -94,15 +94,15 @@ def after (now : Int) : Option Int → Bool
   | some u => decide (u < now)
 
 /-- the `switch s.mode` of `Recalc`: new (stressed, stayOnUntil) -/
-def machine (c : Cfg) (now : Int) (stressed : Bool) (until : Option Int) (lvl : Nat) : Bool × Option Int :=
+def machine (c : Cfg) (now : Int) (stressed : Bool) (hold : Option Int) (lvl : Nat) : Bool × Option Int :=
   match c.mode with
-  | .never => (false, until)
-  | .always => (true, until)
+  | .never => (false, hold)
+  | .always => (true, hold)
   | .monitor =>
     let on1 := stressed || decide (c.act ≤ lvl)
-    let until1 := if on1 && decide (c.deact ≤ lvl) then some (now + c.minDur) else until
-    let on2 := if on1 && decide (lvl < c.deact) && after now until1 then false else on1
-    (on2, until1)
+    let hold1 := if on1 && decide (c.deact ≤ lvl) then some (now + c.minDur) else hold
+    let on2 := if on1 && decide (lvl < c.deact) && after now hold1 then false else on1
+    (on2, hold1)
 
 def recalc (s : St) (loc : Nat) : St × Ev :=
   let reps1 := AList.put s.reports hostId (loc, s.now)          -- own report, then expiry
